@@ -128,7 +128,7 @@ impl Q {
             if e > 70 { return None; }
             Some(Q::int(sign * mant.checked_mul(1i128 << e)?))
         } else {
-            if -e > 120 { return None; }
+            if -e > 126 { return None; }
             Some(Q::new(sign * mant, 1i128 << (-e)))
         }
     }
